@@ -289,3 +289,103 @@ Proof.
     + intros t0 Hne. unfold task_of. autorewrite with iv. rewrite aget_aset. apply N.eqb_neq in Hne. now rewrite Hne.
     + exists ti. split; [exact Hg|]. unfold task_of. autorewrite with iv. apply aget_aset_same.
 Qed.
+
+Lemma tcore_eq_tasks s s' : is_tasks s' = is_tasks s -> forall t, tcore s' t = tcore s t.
+Proof. intros H t. unfold tcore, task_of. now rewrite H. Qed.
+
+Definition scan_demand (s0 : istate) (inp : key) : option (bool * istate) :=
+  match scan_rule rules env s0 inp with (false, _) => None | (true, s1) => Some (demand_rule rules ord s1 inp) end.
+
+Lemma process_input_request_eq s0 rq : process_input_request rules env ord s0 rq =
+  match scan_demand s0 (iq_input rq) with
+  | None => pause_on_rule (snd (scan_rule rules env s0 (iq_input rq))) (iq_input rq) rq
+  | Some (avail, s2) => match iq_task rq with None => s2 | Some t => route_request s2 t rq avail end
+  end.
+Proof.
+  unfold process_input_request, scan_demand. destruct (scan_rule rules env s0 (iq_input rq)) as [[|] s1]; cbn [snd]; auto.
+  all: try (destruct (demand_rule rules ord s1 (iq_input rq)) as [avail s2]; reflexivity).
+Qed.
+
+Lemma step_inreq_stage1 root s rq rest : Inv rules ctx0 s -> VInv root s -> is_inreq s = rq :: rest ->
+  exists avail s2, scan_demand (upd_inreq s rest) (iq_input rq) = Some (avail, s2) /\
+    (nf s2 -> VInv root (upd_inreq s2 (rq :: is_inreq s2)) /\ (avail = true -> kind_of s2 (iq_input rq) = KComplete) /\
+              (is_in_progress s2 (iq_input rq) = true \/ kind_of s2 (iq_input rq) = KComplete)).
+Proof.
+  intros HI HV Hq. set (s0 := upd_inreq s rest). set (inp := iq_input rq).
+  pose proof HV as [V1 V2 V3 V4 V5 V6 V7 V8 V9 V10]. pose proof HI as (_ & HT & _).
+  destruct (scan_rule_fb s0 inp (proj1 (V3 inp)) (proj2 (V3 inp)) (V4 inp) (fun H => proj1 (V5 inp H)))
+    as (s1 & Esc & S1 & S2 & S3 & S4 & S5 & S6 & S7 & S8 & S9 & S10 & S11 & S12).
+  change (kind_of s0 inp) with (kind_of s inp) in S2. change (res_of s0 inp) with (res_of s inp) in S3, S4.
+  assert (Hc1 : kind_of s1 inp = KComplete -> res_builtAt (res_of s1 inp) = is_epoch s1).
+  { intros H. rewrite S4, S11. apply V5. rewrite S2 in H. destruct (kind_of s inp); auto; discriminate. }
+  unfold scan_demand. rewrite Esc, (demand_rule_fb s1 inp Hc1).
+  assert (HR : forall k, k <> inp -> rinfo_of s1 k = rinfo_of s k) by (intros k Hne; now rewrite (S1 k Hne)).
+  (* nothing changes but, possibly, Incomplete -> NeedsToRun *)
+  assert (Hframe : kind_of s1 inp = kind_of s inp -> VInv root (upd_inreq s1 (rq :: is_inreq s1))).
+  { intros Hk. apply (VInv_frame rules env F rank root s); auto.
+    - intros k. destruct (N.eq_dec k inp) as [->|E]; [exact Hk|]. unfold kind_of. change (rinfo_of (upd_inreq s1 _) k) with (rinfo_of s1 k). now rewrite HR.
+    - intros k. destruct (N.eq_dec k inp) as [->|E]; [exact S3|]. unfold res_of. change (rinfo_of (upd_inreq s1 _) k) with (rinfo_of s1 k). now rewrite HR.
+    - intros k. destruct (N.eq_dec k inp) as [->|E]; [exact S4|]. unfold res_of. change (rinfo_of (upd_inreq s1 _) k) with (rinfo_of s1 k). now rewrite HR.
+    - intros t. apply tcore_eq_tasks. exact S5.
+    - autorewrite with iv. rewrite S6. unfold s0. autorewrite with iv. now rewrite Hq. }
+  assert (Hcreate : kind_of s1 inp = KNeedsToRun -> (kind_of s inp = KIncomplete \/ kind_of s inp = KNeedsToRun) ->
+            nf (create_task rules ord s1 inp) ->
+            VInv root (upd_inreq (create_task rules ord s1 inp) (rq :: is_inreq (create_task rules ord s1 inp))) /\
+            (false = true -> kind_of (create_task rules ord s1 inp) inp = KComplete) /\
+            (is_in_progress (create_task rules ord s1 inp) inp = true \/ kind_of (create_task rules ord s1 inp) inp = KComplete)).
+  { intros Hk1 Hk Hn2.
+    assert (Hb1 : res_builtAt (res_of s1 inp) = 0) by (rewrite S4; apply V4; destruct Hk as [-> | ->]; discriminate).
+    pose proof (create_task_fb s1 inp Hk1 Hb1 Hn2) as [C1 C2 C3 C4 C5 C6 C7 C8 C9 C10 C11 C12].
+    set (s2 := create_task rules ord s1 inp) in *.
+    assert (Hnip : is_in_progress s inp = false) by (unfold is_in_progress; destruct Hk as [-> | ->]; reflexivity).
+    assert (Hno : task_of s inp = None).
+    { unfold task_of. destruct (aget (is_tasks s) inp) eqn:E; auto. assert (H : aget (is_tasks s) inp <> None) by congruence. apply (t_tk ctx0 s HT) in H. congruence. }
+    assert (Hnf : ~ In inp (is_fintasks s)).
+    { intros H. destruct (t_ft ctx0 s HT inp H) as (_ & _ & Hkc & _). destruct Hk; congruence. }
+    split; [|split; [discriminate|left; unfold is_in_progress; now rewrite C2]].
+    apply (VInv_created root s _ inp HV); auto; [|destruct Hk as [-> | ->]; discriminate].
+    constructor; auto.
+    - intros k' Hne. change (rinfo_of (upd_inreq s2 _) k') with (rinfo_of s2 k'). rewrite (C1 k' Hne). now apply HR.
+    - change (res_of (upd_inreq s2 _) inp) with (res_of s2 inp). congruence.
+    - change (res_of (upd_inreq s2 _) inp) with (res_of s2 inp). congruence.
+    - intros t0 Hne. change (task_of (upd_inreq s2 _) t0) with (task_of s2 t0). rewrite (C5 t0 Hne). unfold task_of. now rewrite S5.
+    - autorewrite with iv. rewrite C7, S6. unfold s0. autorewrite with iv. now rewrite Hq.
+    - autorewrite with iv. now rewrite C8, S7.
+    - autorewrite with iv. now rewrite C9, S8.
+    - autorewrite with iv. now rewrite C10, S9.
+    - autorewrite with iv. now rewrite C11, S10.
+    - autorewrite with iv. now rewrite C12, S11. }
+  destruct (kind_of s inp) eqn:Ek; rewrite S2.
+  - (* Incomplete *) eexists _, _. split; [reflexivity|]. intros Hn2. apply Hcreate; auto.
+  - exfalso. now apply (proj1 (V3 inp)).
+  - (* NeedsToRun *) eexists _, _. split; [reflexivity|]. intros Hn2. apply Hcreate; auto.
+  - exfalso. now apply (proj2 (V3 inp)).
+  - (* Waiting *) eexists _, _. split; [reflexivity|]. intros _. split; [now apply Hframe|]. split; [discriminate|]. left. unfold is_in_progress. now rewrite S2.
+  - (* Computing *) eexists _, _. split; [reflexivity|]. intros _. split; [now apply Hframe|]. split; [discriminate|]. left. unfold is_in_progress. now rewrite S2.
+  - (* Complete *) eexists _, _. split; [reflexivity|]. intros _. split; [now apply Hframe|]. split; [intros _; exact S2|]. right. exact S2.
+Qed.
+
+Lemma VInv_step_inreq root s : Inv rules ctx0 s -> VInv root s -> nf (step_inreq rules env ord s) -> VInv root (step_inreq rules env ord s).
+Proof.
+  intros HI HV Hn. unfold step_inreq in *. destruct (is_inreq s) as [|rq rest] eqn:Hq; auto.
+  rewrite process_input_request_eq in *.
+  destruct (step_inreq_stage1 root s rq rest HI HV Hq) as (avail & s2 & Esd & Hs2). rewrite Esd in *.
+  set (inp := iq_input rq) in *. set (s2u := upd_inreq s2 (rq :: is_inreq s2)).
+  destruct (iq_task rq) as [t|] eqn:Et.
+  - (* a request of task t *)
+    assert (Hn2 : nf s2) by (eapply sticky_route_request; eauto).
+    destruct (Hs2 Hn2) as (HV2 & Hav & Hip).
+    destruct (route_request_views s2 t rq avail Hn) as (R1 & R2 & R3 & R4 & R5 & R6 & R7 & R8 & R9).
+    apply (VInv_routed root s2u _ rq (is_inreq s2)); auto.
+    destruct avail.
+    + right. left. destruct R9 as [Rt Rf]. split; [rewrite Et; discriminate|]. split; [now apply Hav|]. split; [|exact Rf].
+      intros t0. apply tcore_eq_tasks. exact Rt.
+    + right. right. destruct R9 as (Rf & Ro & ti & Hg & Hg'). split; [rewrite Et; discriminate|]. split; [exact Rf|]. split.
+      * intros t0 Hne. unfold tcore. now rewrite (Ro t0 Hne).
+      * exists ti, (ti_add_reqby rq ti). repeat split; auto.
+  - (* a dummy request *)
+    destruct (Hs2 Hn) as (HV2 & Hav & Hip).
+    apply (VInv_routed root s2u s2 rq (is_inreq s2)); auto.
+    left. repeat split; auto.
+Qed.
+End Val.
